@@ -70,8 +70,8 @@ def main():
         "setup_cmd": f"{V}/sim/setup.sh",
         "hooks": {
             "guard": "verifsim",
-            "enable": "no hook lives in /repo: each check copies the current /repo working tree (plus spec/swag from the module cache) into a mktemp scratch directory and inserts the seams source-to-source there (sim/prepare.sh + sim/siminstr); the tag only names the scratch build",
-            "baseline_off_cmd": "cd /repo && GOFLAGS=-mod=mod GOPROXY=off GOSUMDB=off GOTOOLCHAIN=local go test -vet=off -count=1 . ./internal/...",
+            "enable": "there is nothing to enable and nothing to switch off in /repo (no hook, no build tag in its sources): no hook lives in /repo: each check copies the current /repo working tree (plus spec/swag from the module cache) into a mktemp scratch directory and inserts the seams source-to-source there (sim/prepare.sh + sim/siminstr); the tag only names the scratch build",
+            "baseline_off_cmd": "cd /repo && export GOFLAGS=-mod=mod GOPROXY=off GOSUMDB=off GOTOOLCHAIN=local && go test -json -vet=off -count=1 -timeout 25m ./... ; (cd analysis_test && go test -json -vet=off -count=1 -timeout 25m ./...) ; git -C /repo checkout -- analysis_test/go.mod analysis_test/go.sum",
             "source_commits": [],
             "add_only": True,
         },
